@@ -13,7 +13,8 @@ import TIV.C14.Model
   now (this is exactly what the doubled `with` buys);
 * **stack discipline** — outer activations sit in the function body; an inner activation's
   first item is the current lock (re-entrancy);
-* **terminal** — the FIFO holds exactly the query of the thread that is waiting for a reply.
+* **terminal** — the FIFO (delivered ++ undelivered parts) holds exactly the outstanding parts of the
+  reply to the one thread that has a reply outstanding, and that thread is inside a section.
 -/
 namespace TIV.C14
 
@@ -24,7 +25,7 @@ def Pc.has1 : Pc → Bool
   | _ => true
 
 def Pc.has2 : Pc → Bool
-  | .csW | .csR | .csD | .rl2 => true
+  | .cs | .rl2 => true
   | _ => false
 
 def Frame.held (f : Frame) (L : Lk) : Nat :=
@@ -131,7 +132,7 @@ def stale (p : Nat) (c L : Lk) : Prop := L = c ∨ (p = 0 ∧ L = .T 0 ∧ c = .
 
 /-- at or after the second acquisition, before the second release -/
 def Pc.dpc : Pc → Bool
-  | .aq2 | .csW | .csR | .csD | .rl2 => true
+  | .aq2 | .cs | .rl2 => true
   | _ => false
 
 def Frame.good (p : Nat) (c : Lk) (f : Frame) : Prop :=
@@ -152,11 +153,6 @@ def TState.good (p : Nat) (c : Lk) : TState → Prop
       (pc ≠ .ld → stale p c l) ∧ (pc = .sw → c = .T 0 ∧ p = 0) ∧ (pc = .rd → c = .M 0) ∧
       ((pc = .rl ∨ pc = .fk) → pass = .M 0 ∧ c = .M 0)
 
-/-- the query the thread is waiting a reply for -/
-def atR : TState → Option Nat
-  | .sync f _ => if f.pc = .csR then some f.q else none
-  | _ => none
-
 structure Inv (s : State) : Prop where
   acc : Acc s.thr s.lk
   up0 : s.up 0 = true
@@ -164,12 +160,14 @@ structure Inv (s : State) : Prop where
   child : ∀ p, p ≠ 0 → s.up p = true → s.cur 0 = .M 0
   down : ∀ t, s.up (s.proc t) = false → s.thr t = .idle
   good : ∀ t, (s.thr t).good (s.proc t) (s.cur (s.proc t))
-  tsome : ∀ u q, atR (s.thr u) = some q → s.repl ++ s.pend = [q]
-  tnone : (∀ u, atR (s.thr u) = none) → s.repl ++ s.pend = []
-  tlog : ∀ e ∈ s.log, e.2.1 = e.2.2
+  tsome : ∀ u q k, s.outq u = some (q, k) →
+    s.repl ++ s.pend = partsFrom q k ∧ 0 < k ∧ k ≤ replyParts
+  tnone : (∀ u, s.outq u = none) → s.repl ++ s.pend = []
+  tin : ∀ u, s.outq u ≠ none → (s.thr u).inside = true
+  tlog : ∀ e ∈ s.log, e.2.2.1 = e.2.1
 
 theorem inv_init (proc : Nat → Nat) : Inv (init proc) := by
-  refine ⟨?_, ?_, ?_, ?_, ?_, ?_, ?_, ?_, ?_⟩ <;> simp [init, Acc, TState.held, TState.good, atR]
+  refine ⟨?_, ?_, ?_, ?_, ?_, ?_, ?_, ?_, ?_, ?_⟩ <;> simp [init, Acc, TState.held, TState.good]
 
 /-! ### a thread inside the body holds the lock its process's global names -/
 
